@@ -338,7 +338,11 @@ OpLabels(st, c, o, Vals, MaxLen, MaxCnt, Its, RLens, Alias, Near) ==
       [] o \in {"clear", "shrinkToFit", "iterate", "relocate", "destroy", "maxSize"} -> {Lbl(o, c, 0, 0, 0, 0, 0, "", <<>>)}
       [] o = "reserve"      -> {Lbl(o, c, 0, 0, n, 0, 0, "", <<>>) :
                                   n \in {m \in 0..MaxLen + 1 : m <= MaxLen \/ Flav[c] = "fixed"} \cup
-                                        (IF Near > 0 /\ Limit(c) <= 300 THEN (Limit(c) - 1)..Min(Limit(c) + 1, MaxSz[c]) ELSE {})}
+                                        (IF Near > 0 /\ Limit(c) <= 300 THEN (Limit(c) - 1)..Min(Limit(c) + 1, MaxSz[c]) ELSE {}) \cup
+                                        \* a capacity that is exactly / just beyond the maximum of another slot's narrower size_type (swap2)
+                                        (IF Flav[c] = "fixed" THEN {}
+                                         ELSE {m \in UNION {{MaxSz[e], MaxSz[e] + 1} : e \in {f \in Slots \ {c} : Flav[f] # "fixed" /\ MaxSz[f] < MaxSz[c] /\ MaxSz[f] <= 300}} :
+                                                 m <= MaxSz[c]})}
       \* a capacity beyond an 8-bit size_type (swap2 between vectors of different size_type)
       [] o = "reserveBig"   -> IF Flav[c] # "fixed" /\ MaxSz[c] >= BigCap THEN {Lbl(o, c, 0, 0, BigCap, 0, 0, "", <<>>)} ELSE {}
       [] o = "appendN"      -> {Lbl(o, c, 0, 0, n, 0, 0, "", <<>>) : n \in Cnts(sz)}
